@@ -49,7 +49,7 @@ def ENCODED():
             rs.RangeSet.__or__, rs.RangeSet.__ior__, rs.MemoryRangeSet.intersects, rs.MemoryRangeSet.__ior__,
             rs.MemoryAccessSet.add, rs.MemoryAccessSet.conflicts, u.get_dma_memory_accesses, u.memory_range_set,
             u.calc_blockdep, u.range_lists_overlap, u.ranges_overlap, u.get_ifm_ofm_block_depth, u.get_first_job_input_volume, u.get_address_ranges, u.get_offset_block_coords, u.get_address_ranges_for_area, u.get_h_ranges, u.get_address_range, u.coords_intersect, u.intersects,
-            __import__("ethosu.vela.architecture_features", fromlist=["x"]).ArchitectureFeatures.get_ifm_block_size, u.get_op_memory_accesses]
+            __import__("ethosu.vela.architecture_features", fromlist=["x"]).ArchitectureFeatures.get_ifm_block_size, u.get_op_memory_accesses, u.to_kernel, u.to_npu_kernel]
 
 
 # ---------------------------------------------------------------------------------------------- layer 1
